@@ -3,7 +3,7 @@ use crate::{
     IsSubset,
     value::{
         Value,
-        subtypes::{Boolean, Number, Optional, String as Str},
+        subtypes::{Boolean, Null, Number, Optional, String as Str},
     },
 };
 
@@ -22,7 +22,9 @@ impl IsSubset for Value {
         #[cfg(feature = "verif")]
         crate::verif::TICKS_IS_SUBSET.fetch_add(1, std::sync::atomic::Ordering::Relaxed);
         match self {
-            Self::Null => other.is_optional() || other.is_null(),
+            Self::Null => {
+                other.is_optional() || other.is_null() || IsOneOf::<Null>::is_one_of(other)
+            }
             // Optionals
             Self::Bool { optional: true } => {
                 other.is_boolean() && other.is_optional()
@@ -44,10 +46,15 @@ impl IsSubset for Value {
                     r#type: ty,
                     optional: true,
                 } => r#type.is_subset(ty),
-                Self::OneOf { variants, .. } => variants.contains(&Self::Array {
-                    r#type: r#type.clone(),
-                    optional: true,
-                }),
+                Self::OneOf { variants, optional } => {
+                    variants.contains(&Self::Array {
+                        r#type: r#type.clone(),
+                        optional: true,
+                    }) || (*optional || variants.contains(&Self::Null))
+                        && variants
+                            .iter()
+                            .any(|var| self.clone().as_non_optional().is_subset(var))
+                }
                 _ => false,
             },
             Self::Tuple {
@@ -61,19 +68,19 @@ impl IsSubset for Value {
                     elements.iter().zip(other).all(|(a, b)| a.is_subset(b))
                         && elements.len() == other.len()
                 }
-                Self::OneOf { variants, .. } => variants.contains(&Self::Tuple {
-                    elements: elements.clone(),
-                    optional: true,
-                }),
+                Self::OneOf { variants, optional } => {
+                    variants.contains(&Self::Tuple {
+                        elements: elements.clone(),
+                        optional: true,
+                    }) || (*optional || variants.contains(&Self::Null))
+                        && variants
+                            .iter()
+                            .any(|var| self.clone().as_non_optional().is_subset(var))
+                }
                 Self::Array {
                     r#type,
                     optional: true,
-                } => {
-                    let Self::OneOf { variants, .. } = &&**r#type else {
-                        return false;
-                    };
-                    elements.iter().all(|element| variants.contains(element))
-                }
+                } => elements.iter().all(|element| element.is_subset(r#type)),
                 _ => false,
             },
             Self::Object {
@@ -85,7 +92,10 @@ impl IsSubset for Value {
                     optional: true,
                 } => {
                     for (k, v) in other {
-                        if !content.contains_key(k) && !v.is_optional() {
+                        if !content.contains_key(k)
+                            && !v.is_optional()
+                            && !IsOneOf::<Null>::is_one_of(v)
+                        {
                             return false;
                         }
                     }
@@ -95,10 +105,16 @@ impl IsSubset for Value {
                             .is_some_and(|other_val| value.is_subset(other_val))
                     })
                 }
-                Self::OneOf { variants, .. } => variants
-                    .iter()
-                    .filter(|var| matches!(var, Self::Object { .. }))
-                    .any(|var| self.is_subset(var)),
+                Self::OneOf { variants, optional } => {
+                    variants
+                        .iter()
+                        .filter(|var| matches!(var, Self::Object { .. }))
+                        .any(|var| self.is_subset(var))
+                        || (*optional || variants.contains(&Self::Null))
+                            && variants
+                                .iter()
+                                .any(|var| self.clone().as_non_optional().is_subset(var))
+                }
                 _ => false,
             },
             Self::OneOf {
@@ -138,15 +154,7 @@ impl IsSubset for Value {
                 optional: false,
             } => match other {
                 Self::Array { r#type: ty, .. } => r#type.is_subset(ty),
-                Self::OneOf { variants, .. } => {
-                    variants.contains(&Self::Array {
-                        r#type: r#type.clone(),
-                        optional: false,
-                    }) || variants.contains(&Self::Array {
-                        r#type: r#type.clone(),
-                        optional: true,
-                    })
-                }
+                Self::OneOf { variants, .. } => variants.iter().any(|var| self.is_subset(var)),
                 _ => false,
             },
             Self::Tuple {
@@ -159,20 +167,9 @@ impl IsSubset for Value {
                     elements.iter().zip(other).all(|(a, b)| a.is_subset(b))
                         && elements.len() == other.len()
                 }
-                Self::OneOf { variants, .. } => {
-                    variants.contains(&Self::Tuple {
-                        elements: elements.clone(),
-                        optional: false,
-                    }) || variants.contains(&Self::Tuple {
-                        elements: elements.clone(),
-                        optional: true,
-                    })
-                }
+                Self::OneOf { variants, .. } => variants.iter().any(|var| self.is_subset(var)),
                 Self::Array { r#type, .. } => {
-                    let Self::OneOf { variants, .. } = &&**r#type else {
-                        return false;
-                    };
-                    elements.iter().all(|element| variants.contains(element))
+                    elements.iter().all(|element| element.is_subset(r#type))
                 }
                 _ => false,
             },
@@ -182,7 +179,10 @@ impl IsSubset for Value {
             } => match other {
                 Self::Object { content: other, .. } => {
                     for (k, v) in other {
-                        if !content.contains_key(k) && !v.is_optional() {
+                        if !content.contains_key(k)
+                            && !v.is_optional()
+                            && !IsOneOf::<Null>::is_one_of(v)
+                        {
                             return false;
                         }
                     }
